@@ -1,4 +1,4 @@
-/* C07-corpus: known C07:static-init-override
+/* C07-corpus: pass   (was known C07:static-init-override until /repo 3fd51b71)
    C11 6.7.9p19: a later initializer for the same subobject overrides an earlier one; c2mir keeps
    the FIRST one in initializers of objects with static storage duration */
 #include <stdio.h>
